@@ -102,8 +102,15 @@ pub fn install_panic_hook() {
         } else {
             "<non-string panic>".to_string()
         };
+        if std::env::var_os("VERIF_PANIC_STDERR").is_some() {
+            eprintln!("PANIC {} at {}", msg, loc);
+        }
         LAST_PANIC.with(|p| *p.borrow_mut() = Some(format!("{} at {}", msg, loc)));
     }));
+}
+
+pub fn take_last_panic() -> Option<String> {
+    LAST_PANIC.with(|p| p.borrow_mut().take())
 }
 
 pub fn run_family(f: FamilyFn, ch: Chooser, ctx: &RunCtx) -> RunOut {
